@@ -524,4 +524,41 @@ theorem run_rps_mono (ops : List Op) (s : St) : s.rps ≤ (run s ops).rps := by
     | some r =>
       exact Nat.le_trans (step_rps_mono (show step s op = some (r.1, r.2) from hs)) (ih r.1)
 
+/-! ### the position created by a plain `enterFarm` carries the settled index (C06 `no_retro_entry`) -/
+
+theorem attrs_payRewardIf {s s' : St} {k : Kind} {u b bo : Nat} (h : payRewardIf s k u b bo = some s') :
+    s'.attrs = s.attrs := by
+  unfold payRewardIf at h
+  split at h
+  · obtain ⟨_, _, rfl, _⟩ := payReward_spec h; rfl
+  · simp only [Option.some.injEq] at h; rw [← h]
+
+theorem enterCore_token {s s' : St} {caller orig dst amt : Nat} {o : Out}
+    (h : enterCore s caller orig dst amt [] = some (s', o)) :
+    ∃ a, s'.attrs o.nonce = some a ∧ a.rps = s'.rps ∧ a.amt = amt ∧ a.comp = 0 ∧ a.owner = orig ∧
+      o.amt = amt := by
+  have hrv := enterCore_rv h
+  simp only [enterCore, Option.bind_eq_bind, Option.bind_eq_some_iff, req_eq_some, Option.pure_def,
+    Option.some.injEq, Prod.mk.injEq] at h
+  obtain ⟨_, _, s0, h0, ⟨s1, boosted⟩, h1, s1', h1', _, hact, s2, h2, ⟨s4, c1⟩, h4, merged, hm,
+    ⟨s5, n⟩, h5, s6, h6, s8, h8, s9, h9, rfl, rfl⟩ := h
+  simp only [mergeParts, Option.some.injEq] at hm
+  obtain ⟨_, hn, e5⟩ := createToken_spec h5
+  have a5 : s5.attrs n = some merged := by rw [e5, hn]; simp
+  have a6 : s6.attrs = s5.attrs := by obtain ⟨_, _, rfl⟩ := setFarmSupplyWeek_spec h6; rfl
+  have a8 : s8.attrs = s6.attrs := (attrs_payRewardIf h8).trans rfl
+  have a9 : s9.attrs = s8.attrs := by obtain ⟨_, rfl⟩ := updateEnergyAndProgress_spec h9; rfl
+  have r9 : s9.rps = c1.rps := by
+    have q := (updateEnergyAndProgress_rv h9).trans (payRewardIf_rv h8)
+    exact congrArg RV.rps q
+  refine ⟨merged, ?_, ?_, ?_, ?_, ?_, ?_⟩
+  · show s9.attrs n = some merged
+    rw [a9, a8, a6]; exact a5
+  · rw [r9, ← hm]
+  · rw [← hm]
+  · rw [← hm]
+  · rw [← hm]
+  · show merged.amt = amt
+    rw [← hm]
+
 end Mx.Farm
